@@ -150,11 +150,13 @@ pub struct Judge<'w> {
     pub stats: Stats,
     /// cached in-memory outcome of the previous case when the bytes are the same (C12)
     mem_cache: Option<(u64, bool, LegOut)>,
+    /// C19: the previous failing input per (level, protocol, leg), for the retention oracle
+    prev_failing: std::collections::BTreeMap<String, Vec<u8>>,
 }
 
 impl<'w> Judge<'w> {
     pub fn new(w: &'w World) -> Self {
-        Judge { w, stats: Stats::default(), mem_cache: None }
+        Judge { w, stats: Stats::default(), mem_cache: None, prev_failing: Default::default() }
     }
 
     pub fn run(&mut self, case: &Case) -> Vec<Violation> {
@@ -592,27 +594,28 @@ impl<'w> Judge<'w> {
             (_, true) => "mem",
             _ => "stream",
         };
-        // three repetitions: one-time lazy initialisation must not count as a leak
+        // In replay / confirmation the case names the input that was decoded just before it.
+        if let Some(p) = &case.prior {
+            let mut pc = case.clone();
+            pc.bytes = p.clone();
+            pc.prior = None;
+            let o = self.c19_leg(&pc, caps, tag);
+            drop(o);
+        }
+        // Three measured repetitions. Nothing of the harness is allocated inside a measured window
+        // (flags only); counters, samples and the error chain come from a fourth, unmeasured run.
         let mut deltas = [0isize; 3];
         let mut is_err = false;
         let mut unique = true;
-        let mut chain = String::new();
         let mut panicked = false;
         for (i, d) in deltas.iter_mut().enumerate() {
             let before = alloc::live();
             {
                 let o = self.c19_leg(case, caps, tag);
                 if i == 0 {
-                    record(&mut self.stats, case, leg, &o);
-                    let mut stats = std::mem::take(&mut self.stats);
-                    sample(&mut stats, case, if leg == "mem" { Some(&o) } else { None }, if leg == "stream" { Some(&o) } else { None });
-                    self.stats = stats;
                     is_err = matches!(o.res, LegRes::Err { .. });
                     panicked = matches!(o.res, LegRes::Panic { .. });
                     unique = o.input_unique;
-                    if let LegRes::Err { info, .. } = &o.res {
-                        chain = info.msg.clone();
-                    }
                 }
             }
             *d = alloc::live() - before;
@@ -620,17 +623,56 @@ impl<'w> Judge<'w> {
                 break;
             }
         }
+        let mut chain = String::new();
+        {
+            let o = self.c19_leg(case, caps, tag);
+            record(&mut self.stats, case, leg, &o);
+            let mut stats = std::mem::take(&mut self.stats);
+            sample(&mut stats, case, if leg == "mem" { Some(&o) } else { None }, if leg == "stream" { Some(&o) } else { None });
+            self.stats = stats;
+            if let LegRes::Err { info, .. } = &o.res {
+                chain = info.msg.clone();
+            }
+        }
         if panicked {
             self.stats.bump("skipped.panic");
         }
         if is_err {
             self.stats.bump("c19.failed_decodes_measured");
+            let key = format!("{}|{}|{}", level_key(&case.level), case.proto.name(), leg);
             let marker = if leg == "mem" && ((deltas[1] > 0 && deltas[2] > 0) || !unique) { self.list_element_marker(case, &chain) } else { String::new() };
             if deltas[1] > 0 && deltas[2] > 0 {
                 let site = format!("{}/{}/{}{}", leg, level_key(&case.level), decode_path(self.w, &case.level, &chain), marker);
                 v.push(viol(case, "leak", site, format!("{} live bytes remain after each failed decode (repetitions: {:?})", deltas[2], deltas)));
             } else if deltas[0] > 0 {
-                self.stats.bump("info.first_run_only_growth");
+                // Growth on the first decode of this input only: one-time initialisation, or something
+                // kept from the decoded data (a free list, a cache) that the next decode of the same
+                // input merely replaces. The two differ in whether it happens again: decode the previous
+                // failing input of this kind, then this one, twice over; initialisation cannot repeat.
+                self.stats.bump("info.first_run_growth");
+                let key = format!("{}|{}|{}", level_key(&case.level), case.proto.name(), leg);
+                let prior = case.prior.clone().or_else(|| self.prev_failing.get(&key).cloned());
+                if let Some(p) = prior {
+                    if p != case.bytes {
+                        let mut pc = case.clone();
+                        pc.bytes = p.clone();
+                        pc.prior = None;
+                        let mut again = [0isize; 2];
+                        for a in again.iter_mut() {
+                            drop(self.c19_leg(&pc, caps, tag));
+                            let before = alloc::live();
+                            drop(self.c19_leg(case, caps, tag));
+                            *a = alloc::live() - before;
+                        }
+                        self.stats.bump("c19.retention_confirmations");
+                        if again[0] > 0 && again[1] > 0 {
+                            let site = format!("{}/{}/{}", leg, level_key(&case.level), decode_path(self.w, &case.level, &chain));
+                            let mut vc = case.clone();
+                            vc.prior = Some(p);
+                            v.push(viol(&vc, "retained_after_drop", site, format!("{} bytes more are live after this failed decode was dropped than after the previous input's, every time the pair is repeated ({:?}): something of the decoded data is kept", again[1], again)));
+                        }
+                    }
+                }
             }
             // slow accumulation: state that grows only now and then (a shared scratch vector that
             // doubles, a cache) is invisible to three repetitions. Every 32nd failing case is
@@ -654,6 +696,9 @@ impl<'w> Judge<'w> {
             if !unique {
                 let site = format!("{}/{}/{}{}", leg, level_key(&case.level), decode_path(self.w, &case.level, &chain), marker);
                 v.push(viol(case, "input_retained", site, "the input buffer is still shared after the error was dropped".into()));
+            }
+            if case.prior.is_none() {
+                self.prev_failing.insert(key, case.bytes.clone());
             }
         }
         v
